@@ -11,13 +11,26 @@ Local Notation "a + b" := (fadd K a b).
 Local Notation "a * b" := (fmul K a b).
 Local Notation "- a" := (fopp K a).
 
-(** CommitmentBuilder::commit(statement, message, b, rng): on the pinned tree [b] is the claim's shared
-    Schnorr nonce (create.rs passes proof_message.get_blinder), [r] is fresh.
-    Published: commitment C, blinder_proof = r + c*b; the message response b + c*m lives in the signature
-    proof.  Hashed by the prover: C and the blind commitment gm*b + gb*r. *)
+(** CommitmentBuilder::commit(statement, message, b, rng): [n] = the claim's shared Schnorr nonce handed in by
+    Presentation::create, [b'] = the commitment's own blinding factor, [r] = the nonce of the blinding factor.
+    Published: commitment C = gm*m + gb*b', blinder_proof = r + c*b'; the message response n + c*m lives in
+    the signature proof.  Hashed by the prover: C and the blind commitment gm*n + gb*r. *)
 Record comm_out := mkCommOut { co_C : K; co_blind : K; co_bp : K; co_mp : K }.
-Definition comm_prover (gm gb m b r c : K) : comm_out :=
-  mkCommOut (gm * m + gb * b) (gm * b + gb * r) (r + c * b) (b + m * c).
+Definition comm_prover (gm gb m b' n r c : K) : comm_out :=
+  mkCommOut (gm * m + gb * b') (gm * n + gb * r) (r + c * b') (n + m * c).
+
+(** the prover as it was on the pinned tree before fix b4949f5: the blinding factor WAS the shared nonce *)
+Definition comm_prover_pinned (gm gb m b r c : K) : comm_out := comm_prover gm gb m b b r c.
+
+(** VerifiableEncryptionBuilder::commit: ElGamal in the exponent with its own randomness [k];
+    nonces: [n] (shared, for the message) and [r] (for k).  Published: c1 = G*k, c2 = gm*m + ek*k,
+    blinder_proof = r + c*k; hashed: c1, c2, r1 = G*r, r2 = gm*n + ek*r. *)
+Record venc_out := mkVencOut { vo_c1 : K; vo_c2 : K; vo_r1 : K; vo_r2 : K; vo_bp : K; vo_mp : K }.
+Definition venc_prover (gm ek m k n r c : K) : venc_out :=
+  mkVencOut k (gm * m + ek * k) r (gm * n + ek * r) (r + c * k) (n + m * c).
+(** src/verifier/verifiable_encryption.rs: r1 = -c*c1 + G*bp, r2 = -c*c2 + gm*mp + ek*bp  (G has log 1) *)
+Definition venc_verifier_r1 (c1 bp c : K) : K := c1 * (- c) + bp.
+Definition venc_verifier_r2 (gm ek c2 bp mp c : K) : K := c2 * (- c) + gm * mp + ek * bp.
 
 (** what the verifier recomputes and hashes (src/verifier/commitment.rs) *)
 Definition comm_verifier_blind (gm gb C bp mp c : K) : K := C * (- c) + gm * mp + gb * bp.
